@@ -103,7 +103,7 @@ class CliRun(FnSpec):
         tr = st.trace[len(L.entry_st.trace):]
         stores = [e for e in tr if e[0] == "dstore"]
         fn_ = L.eng.fi.node
-        n_keys, n_key = roles.assigned_from_listcomp(fn_, 0), roles.unpack_targets_from_call(fn_, "split", 0)[0]
+        n_keys, n_key = roles.list_indexed_last_in_store(fn_), roles.unpack_targets_from_call(fn_, "split", 0)[0]
         if n_keys in st.env and n_key in st.env and stores:
             keys = Val.a(st.env[n_keys].t)
             key = st.env[n_key].t
